@@ -13,6 +13,19 @@ CLAIMED = {
              "and every transition is replayed into geomdl.helpers / geomdl.knotvector with the exact expected values.",
         technique="TLA+ spec (Knots, Basis, MC_C03) model-checked exhaustively with TLC; spec->code replay of every transition",
         design="4 C03"),
+    "C01": dict(
+        text="TLC enumerates a lattice of curves, surfaces and volumes (rational or not; clamped, unclamped and non-normalised knot vectors) "
+             "with every parameter tuple of knots/span samples, sample-size tuples and a parameter list; the expected points are the "
+             "tensor-product Cox-de Boor definition evaluated exactly; every transition is replayed through evaluate_single, evaluate_list, "
+             "derivatives(order=0), the evaluator called directly and the sampled grid (size, order, corners).",
+        technique="TLA+ spec (Shape, Lattice, MC_C01) model-checked exhaustively with TLC; spec->code replay of every transition",
+        design="4 C01"),
+    "C02": dict(
+        text="TLC computes the exact derivative tables (derivative of the Cox-de Boor definition, Leibniz rule for rational shapes) for every "
+             "(shape, parameter, order <= degree+2) of the lattice, proves the A3.3/A3.4 and A3.7/A3.8 transcriptions and the hodograph "
+             "definitions equal to them, and every transition is replayed into both evaluator families, derivative_curve/surface, tangent and normal.",
+        technique="TLA+ spec (Shape, Hodo, MC_C02) model-checked exhaustively with TLC; spec->code replay of every transition",
+        design="4 C02"),
 }
 
 PENDING_REASON = "check not built yet (work in progress, see DESIGN.md section 8 build order)"
